@@ -35,6 +35,7 @@ pub struct Lexer<CharIter: Iterator<Item = char>> {
     pub current: Option<char>,
     pub peekable_char_stream: Peekable<CharIter>,
     location: [u32; 2],
+    located: bool,
 }
 
 impl<CharIter: Iterator<Item = char>> Iterator for Lexer<CharIter> {
@@ -42,7 +43,11 @@ impl<CharIter: Iterator<Item = char>> Iterator for Lexer<CharIter> {
     fn next(&mut self) -> Option<Self::Item> {
         match self.try_next() {
             Ok(None) => None,
-            Ok(Some(data)) => Some(Ok(data.locate(Some(self.location)))),
+            Ok(Some(data)) => Some(Ok(data.locate(if self.located {
+                Some(self.location)
+            } else {
+                None
+            }))),
             Err(e) => Some(Err(e)),
         }
     }
@@ -75,7 +80,15 @@ impl<CharIter: Iterator<Item = char>> Lexer<CharIter> {
             current: None,
             peekable_char_stream: char_stream.peekable(),
             location: [1, 1],
+            located: true,
         }
+    }
+
+    /// Tokens without locations: for sources other than the program text (libraries), whose
+    /// lines and columns mean nothing in the program being run.
+    pub fn without_locations(mut self) -> Self {
+        self.located = false;
+        self
     }
 
     pub fn set_last_location(&mut self, location: [u32; 2]) {
